@@ -73,6 +73,7 @@ type VC struct {
 	err     error
 	cover   Term   // disjunction of the guards of all returns (vacuity check)
 	coverSt string // verdict of the cover query: sat/unknown = fine, unsat = vacuous
+	vacuous []string // clauses whose premise is unsatisfiable wherever they are checked
 }
 
 func newVC(e *Engine, unit string) *VC {
